@@ -34,6 +34,8 @@ class Probe:
     model_applies: bool = True       # the model predicts the derive's verdict for this subject
     source_override: Optional[str] = None
     crate_attrs: str = ""
+    reject_must_mention: str = ""    # a rejection only counts as the expected one when rustc's message matches this
+    edition: str = "2021"    # edition of the user crate (the derive's own tokens carry the macro crate's edition)
 
     def source(self):
         if self.source_override is not None:
@@ -267,9 +269,20 @@ class ProbeSet:
         # foreign attributes and doc comments everywhere
         s = simple_enum("", "u8", (1, 2, 3), feats)
         s.attrs = [EAttr("foreign", text="/// doc"), EAttr("foreign", text="#[allow(dead_code)]"), EAttr("foreign", text="#[doc(hidden)]")] + s.attrs
+        # every meta shape: path-only, name-value, tool path, cfg_attr; before and after the derive's own attributes
+        s.attrs = [EAttr("foreign", text="#[must_use]"), EAttr("foreign", text="#[doc = \"nv\"]")] + s.attrs + [
+            EAttr("foreign", text="#[non_exhaustive]"), EAttr("foreign", text="#[rustfmt::skip]"), EAttr("foreign", text="#[cfg_attr(all(), allow(unused))]")]
         s.variants[0].attrs = [VAttr("foreign", text="/// first"), VAttr("foreign", text="#[allow(dead_code)]")]
         s.variants[2].attrs = [VAttr("foreign", text="#[doc = \"x\"]"), VAttr("rename", "three")]
         self.add("C11", "foreign-attrs", "accept", s)
+        # variants named like the associated items, traits and types the generated code mentions (`Self::Error`, `Self::Item`, ..):
+        # any identifier is a legal variant name
+        for ident in C.Corpus.VARIANT_IDENTS:
+            for sname, r, vals in (("gapless", "i8", GAPLESS), ("holes", "i16", HOLES_NEG)):
+                for kind in ("auto", "table"):
+                    s = simple_enum("", r, vals, C.config(kind, sname == "gapless"))
+                    s.variants[1].ident = ident
+                    self.add("C11", f"variant-named:{ident}:{sname}:{kind}", "accept", s)
         # single variant; 300 variants; (thorough) the 65534 limit
         self.add("C11", "single", "accept", simple_enum("", "i128", (-5,), feats))
         self.add("C11", "n300", "accept", simple_enum("", "u16", tuple(range(300)), C.config("auto", True), explicit=False))
@@ -378,6 +391,12 @@ class ProbeSet:
                 ("bad-vis-in", [I("list", "MIN", [P("str", "vis", "pub(in crate)")])]),
                 ("bad-vis-case", [I("list", "MAX", [P("str", "vis", "PUB")])]),
                 ("bad-vis-space", [I("list", "next", [P("str", "vis", "pub ")])]),
+                ("bad-vis-leading-space", [I("list", "as_str", [P("str", "vis", " pub")])]),
+                ("bad-vis-inner-space", [I("list", "try_from", [P("str", "vis", "pub (crate)")])]),
+                ("bad-vis-newline", [I("list", "iter", [P("str", "vis", "pub\n")])]),
+                ("bad-vis-blank", [I("list", "names", [P("str", "vis", " ")])]),
+                ("bad-vis-self", [I("list", "into", [P("str", "vis", "pub(self)")])]),
+                ("bad-vis-in-path", [I("list", "MAX", [P("str", "vis", "pub(in crate::x)")])]),
                 ("bad-vis-private", [I("list", "next", [P("str", "vis", "private")])]),
                 ("name-not-string", [I("list", "into", [P("nonstr", "name", text="name = 5")])]),
                 ("name-flag", [I("list", "into", [P("flag", "name")])]),
@@ -442,6 +461,7 @@ class ProbeSet:
                 ("v-list", VAttr("bademit", text="#[enum_tools(rename(\"x\"))]")),
                 ("v-two", VAttr("badabort", text="#[enum_tools(rename = \"a\", rename = \"b\")]")),
                 ("v-empty", VAttr("badabort", text="#[enum_tools()]")),
+                ("v-rename-and-other", VAttr("badabort", text="#[enum_tools(rename = \"a\", into)]")),
                 ("v-feature", VAttr("bademit", text="#[enum_tools(into)]")),
                 ("v-bool", VAttr("bademit", text="#[enum_tools(rename = true)]")),
                 ("v-bytestr", VAttr("bademit", text="#[enum_tools(rename = b\"x\")]")),
@@ -667,6 +687,42 @@ fn sigs() {{
 }}
 """
                     self.add("C19", f"sigs:{sname}:str={sm}:iter={im}", "accept", s, extra=extra)
+                    if sm == "auto" and "-" not in sname:
+                        # the same ascriptions in a crate without std: an impl that names `::std` is missing there
+                        import copy
+                        self.add("C19", f"sigs-no_std:{sname}:iter={im}", "accept", copy.deepcopy(s), extra=extra, crate_attrs="#![no_std]\n",
+                                 prelude="use ::enum_tools::EnumTools;\n")
+
+
+        # const-ness is part of the signature: exactly the functions documented as `const fn` are usable in constants, in every
+        # configuration (a `const` that appears only with some mode or only on gapless enums makes the signature depend on them)
+        try:
+            import stages
+            doc_const = set(re.findall(r"///\s*`\$vis const fn (\w+)", open(os.path.join(stages.REPO, "src", "lib.rs")).read()))
+        except OSError:
+            doc_const = {"into"}
+        uses = {"into": ("{r}", "E::V0.into()"), "as_str": ("&str", "E::V0.as_str()"), "next": ("::core::option::Option<E>", "E::V0.next()"),
+                "next_back": ("::core::option::Option<E>", "E::V1.next_back()"), "try_from": ("::core::option::Option<E>", "E::try_from(1)"),
+                "from_str": ("::core::option::Option<E>", "E::from_str(\"V1\")"), "iter": ("EIter", "E::iter()"), "names": ("ENames", "E::names()"),
+                "range": ("EIter", "E::range(E::V0, E::V1)")}
+        for sname, r, vals in (("gapless", "i8", GAPLESS), ("holes", "i8", HOLES)):
+            gap = sname == "gapless"
+            cfgs = []
+            for sm in ("auto", "match", "table"):
+                cfgs.append((f"str={sm}", [("as_str", {"mode": sm}), ("from_str", {"mode": sm}), ("FromStr", {"mode": sm})], ("as_str", "from_str")))
+            for steer in (["as_str"], ["as_str", "from_str"], ["as_str", "FromStr"], ["from_str", "Display"], ["as_str", "from_str", "FromStr", "Debug"]):
+                cfgs.append(("only=" + "+".join(steer), [(f, {}) for f in steer], tuple(f for f in steer if f in uses)))
+            for kind in ("table", "match"):
+                cfgs.append((f"cfg={kind}", C.config(kind, gap), ("into", "next", "next_back", "try_from")))
+            for im in ["auto", "next_and_back", "table", "table_inline"] + (["range"] if gap else []):
+                fs = [("iter", {"mode": im} if im != "auto" else {}), ("names", {})] + ([("range", {})] if im != "table_inline" else [])
+                cfgs.append((f"iter={im}", fs, ("iter", "names") + (("range",) if im != "table_inline" else ())))
+            for tag, feats, fns in cfgs:
+                for fn in fns:
+                    ty, call = uses[fn]
+                    sx = simple_enum("", r, vals, feats)
+                    self.add("C19", f"constness:{fn}:{tag}:{sname}", "accept" if fn in doc_const else "reject", sx,
+                             extra=f"const K: {ty.format(r=r)} = {call};\n", model_applies=False, reject_must_mention="E0015")
 
         # a requested struct name that is also the name of something the generated constructor bodies import
         # (finding D10: `use ::core::iter::Iterator;` / `Option::Some` inside `iter()`, `range()`, `names()`)
@@ -694,6 +750,15 @@ fn sigs() {{
                 s = simple_enum("", r, vals, feats)
                 s.derives = "::core::clone::Clone, ::core::marker::Copy"
                 self.add("C16", f"hostile:{sname}:{kind}", "accept", s, prelude=HOSTILE_PRELUDE)
+                # user crates of the older editions: there `::core::..` written by the *user* would name an item of the crate
+                # root; the derive's tokens must keep resolving it as the library, with and without such an item present
+                for ed in ("2015", "2018"):
+                    for tag, extra in (("plain", ""), ("root-mod-core", "pub mod core { pub mod marker {} pub mod option {} }\n")):
+                        if kind in ("table", "auto"):
+                            s = simple_enum("", r, vals, feats)
+                            s.derives = "Clone, Copy"
+                            self.add("C16", f"edition{ed}:{tag}:{sname}:{kind}", "accept", s, prelude="#[macro_use] extern crate enum_tools;\n",
+                                     extra=extra, edition=ed)
 
     # ---- enum identifiers that collide with names the templates use themselves
     def fam_enum_names(self):
@@ -761,8 +826,8 @@ def find_enum_tools_so(work, log=None):
 
 
 def compile_probe(args):
-    src_path, so, out_dir = args
-    cmd = ["rustc", "--edition", "2021", "--crate-type", "lib", "--emit=metadata", "--crate-name", "probe",
+    src_path, so, out_dir, edition = args
+    cmd = ["rustc", "--edition", edition, "--crate-type", "lib", "--emit=metadata", "--crate-name", "probe",
            "--extern", f"enum_tools={so}", "--out-dir", out_dir, "--error-format=short", "-Awarnings", src_path]
     p = subprocess.run(cmd, capture_output=True, text=True)
     return p.returncode, (p.stderr or "")[:1500]
@@ -778,7 +843,7 @@ def run_probes(ps: ProbeSet, work, etmodel, log=print):
         open(sp, "w").write(p.source())
         od = os.path.join(d, "out_" + p.pid)
         os.makedirs(od)
-        jobs.append((sp, so, od))
+        jobs.append((sp, so, od, p.edition))
     # model verdicts: chunks run concurrently with rustc (the association-list model of HashMap is quadratic,
     # so each very large declaration gets its own process)
     withm = [p for p in ps.probes if p.subject is not None and p.model_applies]
@@ -799,7 +864,7 @@ def run_probes(ps: ProbeSet, work, etmodel, log=print):
         mf = [ex.submit(run_chunk, (k, c)) for k, c in enumerate(chunks)]
         results = list(ex.map(compile_probe, jobs))
         mouts = [f.result() for f in mf]
-    for _, _, od in jobs:
+    for _, _, od, _ in jobs:
         subprocess.run(["rm", "-rf", od])
     model = {}
     for text in mouts:
@@ -811,6 +876,8 @@ def run_probes(ps: ProbeSet, work, etmodel, log=print):
     from subject import to_json
     for p, (rc, err) in zip(ps.probes, results):
         verdict = "accept" if rc == 0 else "reject"
+        if rc != 0 and p.reject_must_mention and not re.search(p.reject_must_mention, err):
+            verdict = "reject-for-another-reason"
         m = model.get(p.pid)
         out.append({"pid": p.pid, "prop": p.prop, "cls": p.cls, "expect": p.expect, "impl": verdict,
                     "model": (m.split(" ")[0] if m else None), "model_detail": m, "error": err if rc != 0 else "",
